@@ -467,6 +467,26 @@ def reify(c):
     raise Unsupported('class %s' % t.__name__)
 
 
+def no_emit_override(c, seen=None):
+    """the model of the emitted code follows the class's emitter; an instance-level _emitparse / _emitbuild (PascalString)
+    anywhere in the tree is outside it"""
+    seen = set() if seen is None else seen
+    if id(c) in seen:
+        return
+    seen.add(id(c))
+    if isinstance(c, core.Construct):
+        if '_emitparse' in vars(c) or '_emitbuild' in vars(c):
+            raise Unsupported('instance-level emitter')
+        for v in vars(c).values():
+            no_emit_override(v, seen)
+    elif isinstance(c, (list, tuple)):
+        for v in c:
+            no_emit_override(v, seen)
+    elif isinstance(c, dict):
+        for v in dict.values(c):
+            no_emit_override(v, seen)
+
+
 def no_actualsize_override(sc):
     """the model measures a lazily skipped member with Prefixed._actualsize or sizeof; an instance-level
     _actualsize (the PrefixedArray macro) directly in a lazy position is outside it"""
